@@ -261,6 +261,32 @@ func c19Exec(c c19Case) (keys []string, detail, class string) {
 			}
 		}
 	}
+	// a second call on the SAME instance after the clock moved: validUntil must follow
+	{
+		later := c15Clocks[c.Clock].T.Add(36 * time.Hour)
+		sp.Clock = world.Clock(later)
+		var md2 *types.EntityDescriptor
+		var err2 error
+		p2 := guard(func() {
+			if c.SLO {
+				md2, err2 = sp.MetadataWithSLO(h)
+			} else {
+				md2, err2 = sp.Metadata()
+			}
+		})
+		want2 := later.Add(7 * 24 * time.Hour)
+		if c.SLO && h > 0 {
+			want2 = later.Add(time.Duration(h) * time.Hour)
+		}
+		switch {
+		case p2 != "" || err2 != nil || md2 == nil:
+			bad("second-call-on-same-instance/error-or-panic", "%v %s", err2, p2)
+		case !md2.ValidUntil.Equal(want2):
+			bad("second-call-on-same-instance/validUntil-does-not-follow-the-clock", "validUntil %s want %s", md2.ValidUntil.Format(time.RFC3339), want2.UTC().Format(time.RFC3339))
+		case md2 == md:
+			bad("second-call-on-same-instance/same-object-returned", "")
+		}
+	}
 	if len(keys) > 0 {
 		return dedupe(keys), detail, "DIFFERS"
 	}
